@@ -1,15 +1,27 @@
 """C01 — the compiled circuit returns exactly the value the source program denotes."""
+import re
 from vlib import *
 import progcheck as PC
 
 KINDS = ("wrong-value", "spurious-panic", "eval-crash", "config-failed", "other")
 
 
+# a multiplication with a negative integer literal as one factor (`-2 * x`, `x * -16`, `x * (-3i8)`)
+NEG_LITERAL_FACTOR = re.compile(r"-\s*\d+\w*\s*\)?\s*\*|\*\s*\(?\s*-\s*\d+")
+
+
 def known_key(rec, kind, m, r):
+    """the recorded, unrepaired defect of the constant-multiplication rewrite (known_findings.json, also listed under
+    C03): x * c for a small negative literal c is compiled as -(x + ... + x), which reports Overflow when the
+    intermediate sum is 2^(n-1) although the product MIN is representable. Identified by: the specification returns a
+    value, the circuit an Overflow panic, and the source multiplies by a negative literal."""
+    if kind == "spurious-panic" and m.startswith("(ok") and r.startswith("(panic Overflow") \
+            and NEG_LITERAL_FACTOR.search(rec.get("src", "")):
+        return "const-mul-rewrite-intermediate-overflow"
     return None
 
 
-def run_prog_property(ck, pid, prop_file, kinds, n_gen_quick, n_gen_thorough, styles, what, note, known_key_fn=None,
+def run_prog_property(ck, pid, prop_file, kinds, n_gen_quick, n_gen_thorough, styles, what, note, known_key_fn=known_key,
                       ninputs_quick=10, extra_sources=None):
     quick = ck.tier == "quick"
     ck.prepare(prop_file)
@@ -22,7 +34,10 @@ def run_prog_property(ck, pid, prop_file, kinds, n_gen_quick, n_gen_thorough, st
     n = n_gen_quick if quick else n_gen_thorough
     for st in styles:
         sources += PC.generated_sources(ck, n // len(styles), style=st)
-    extra = extra_sources(ck) if extra_sources else []
+    import scenarios
+    extra = scenarios.all_sources() + (extra_sources(ck) if extra_sources else [])
+    if pid == "C01":
+        sources += PC.generated_sources(ck, n // 3, style="mutation") + PC.generated_sources(ck, n // 3, style="bitsoup")
     sources = extra + sources
     recs = PC.run_programs(ck, sources, pid.lower(), ninputs=ninputs_quick if quick else 24)
     if extra:
